@@ -13,7 +13,7 @@
    (explored, not proved). *)
 From Coq Require Import Permutation.
 From MV Require Import Base.Strs Intro.Path Intro.PathProofs Intro.Model Intro.Spec Intro.Judge
-     Intro.JudgeProofs Intro.Proofs Intro.Options Intro.OptionsProofs.
+     Intro.JudgeProofs Intro.Proofs Intro.Options Intro.OptionsProofs Intro.Tests Intro.TestsProofs.
 
 (* ---- the judge: "the meson-info files agree with the generated build" ------------------ *)
 (* The checker accepts exactly the (intro, world) pairs related by Agree: every target has
@@ -223,3 +223,29 @@ Theorem C15_test_env_agrees : forall t (os_environ : dict str) k,
   end.
 Proof. exact test_env_agrees. Qed.
 Print Assumptions C15_test_env_agrees.
+
+(* intro-tests.json / intro-benchmarks.json ARE the serialised tests `meson test` loads: as many
+   entries, in the same order, every field (command = fname ++ cmd_args, name, workdir,
+   timeout, suites, is_parallel, priority, protocol, depends, extra_paths) taken from the
+   TestSerialisation, the environment being its operations evaluated on the empty environment *)
+Theorem C15_intro_tests_are_the_serialised_tests : forall l k t,
+  nth_error l k = Some t ->
+  exists e, nth_error (intro_tests l) k = Some e /\
+    i_cmd e = s_fname t ++ s_cmd_args t /\ i_name e = s_name t /\ i_workdir e = s_workdir t /\
+    i_timeout e = s_timeout t /\ i_suite e = s_suite t /\ i_is_parallel e = s_is_parallel t /\
+    i_priority e = s_priority t /\ i_protocol e = s_protocol t /\ i_depends e = s_depends t /\
+    i_extra_paths e = s_extra_paths t /\ i_env e = get_env (s_env t) [].
+Proof. exact intro_tests_nth. Qed.
+Print Assumptions C15_intro_tests_are_the_serialised_tests.
+
+Theorem C15_intro_tests_length : forall l, length (intro_tests l) = length l.
+Proof. exact intro_tests_length. Qed.
+Print Assumptions C15_intro_tests_length.
+
+(* the environment shown names only variables the test's operations set/append/prepend and
+   never an unset() one *)
+Theorem C15_intro_env_keys : forall t k v,
+  dict_get k (i_env (intro_of_test t)) = Some v ->
+  In k (touched (s_env t)) /\ ~ In k (ev_unset (s_env t)).
+Proof. exact intro_env_keys. Qed.
+Print Assumptions C15_intro_env_keys.
